@@ -56,6 +56,8 @@ def _ddd_in_range(F, pe, site):
 
 
 def check(R, F):
+    from rules.name_rules import check_raw_name_comparisons
+    check_raw_name_comparisons(R, F)
     from rules.name_rules import check_case_folding_callers
     check_case_folding_callers(R, F)
 
